@@ -278,7 +278,7 @@ func deviations(p int, thorough bool) []deviation {
 		// quick: every 7th neighbour (the thorough tier runs all of them)
 		var sub []string
 		for i, s := range nb {
-			if i%7 == 0 || strings.ContainsAny(s, "٢१𝟏０") {
+			if i%7 == 0 || strings.ContainsAny(s, "٢१𝟏０١") {
 				sub = append(sub, s)
 			}
 		}
